@@ -10,7 +10,7 @@ from ..sbe import PRIMS, bits, load
 from ..views import V
 from .. import corpus
 
-SERVES = {"C01", "C02", "C03", "C10", "C11"}
+SERVES = {"C01", "C02", "C03", "C10", "C11", "C19"}
 GH_N = [("unsigned long", "sbv_n")]
 EXPLANATION = "Generated-code obligations are translation validation per corpus schema: the contract of each generated accessor is computed from the XML by sbv/oracle.py."
 
@@ -102,6 +102,12 @@ def contracts_for_schema(cs, tier):
         out.append(Contract(f, nm, props={"C02", "C03", "C10", "C11"}, ghosts=GH_N, mode="S", pre=pre + extra_pre, post=post, assigns=[], unwind=unwind, kind=kind,
                             backends=["kissat", "z3", "cvc5", "minisat"] if has_product else None,
                             note="random-access getters of level %s (%s)" % (li.ident, li.kind)))
+        if li.ident in getattr(g, "bytag_roots", []):
+            fb = u.root("r_%s_get_bytag" % li.ident)
+            fpost = [(n_, e_.replace("RET.", "RET.")) for n_, e_ in post if "-decodes-schema-offset-" in n_ or "-view-at-schema-offset-" in n_ or n_ == "all-fixed-members-in-bounds-or-reported"]
+            vpb = fb.p[0]
+            out.append(Contract(fb, "%s:%s::get_by_tag*" % (cs.name, li.ident), props={"C19", "C02"}, ghosts=GH_N, mode="S", pre=[OBJ(vpb, rec)] + V(u, "(*%s)" % vpb, rec).wf(),
+                                post=[(n_, e_.replace("(*%s)" % vp, "(*%s)" % vpb)) for n_, e_ in fpost], assigns=[], note="get_by_tag of every field of level %s equals the named getter's contract" % li.ident))
         # ---- setters
         sm = [(i, m) for i, m in Gen.wire_members(li) if m["mkind"] in ("field", "member") and m["enc"].kind in ("scalar", "enum", "set")]
         if not sm:
